@@ -42,10 +42,10 @@ pub open spec fn covers<A>(s: Seq<Range<A>>, c: u32) -> bool {
 }
 
 
-pub proof fn lemma_covers_push<A>(s: Seq<Range<A>>, r: Range<A>)
-    ensures forall|c: u32| covers(s.push(r), c) <==> (covers(s, c) || r.start <= c <= r.end)
+pub broadcast proof fn lemma_covers_push<A>(s: Seq<Range<A>>, r: Range<A>, c: u32)
+    ensures #[trigger] covers(s.push(r), c) <==> (covers(s, c) || r.start <= c <= r.end)
 {
-    assert forall|c: u32| covers(s.push(r), c) <==> (covers(s, c) || r.start <= c <= r.end) by {
+    {
         let t = s.push(r);
         if covers(t, c) {
             let i = choose|i: int| 0 <= i < t.len() && (#[trigger] t[i]).start <= c <= t[i].end;
@@ -58,10 +58,10 @@ pub proof fn lemma_covers_push<A>(s: Seq<Range<A>>, r: Range<A>)
         if r.start <= c <= r.end { assert(t[s.len() as int] == r); }
     }
 }
-pub proof fn lemma_covers_concat<A>(a: Seq<Range<A>>, b: Seq<Range<A>>)
-    ensures forall|c: u32| covers(a + b, c) <==> (covers(a, c) || covers(b, c))
+pub broadcast proof fn lemma_covers_concat<A>(a: Seq<Range<A>>, b: Seq<Range<A>>, c: u32)
+    ensures #[trigger] covers(a + b, c) <==> (covers(a, c) || covers(b, c))
 {
-    assert forall|c: u32| covers(a + b, c) <==> (covers(a, c) || covers(b, c)) by {
+    {
         let t = a + b;
         if covers(t, c) {
             let i = choose|i: int| 0 <= i < t.len() && (#[trigger] t[i]).start <= c <= t[i].end;
@@ -82,8 +82,19 @@ pub proof fn lemma_covers_split<A>(s: Seq<Range<A>>, k: int)
     ensures forall|c: u32| covers(s, c) <==> (covers(s.take(k), c) || covers(s.skip(k), c))
 {
     assert(s =~= s.take(k) + s.skip(k));
-    lemma_covers_concat(s.take(k), s.skip(k));
+    assert forall|c: u32| covers(s, c) <==> (covers(s.take(k), c) || covers(s.skip(k), c)) by {
+        lemma_covers_concat(s.take(k), s.skip(k), c);
+    }
 }
+pub broadcast proof fn lemma_covers_one<A>(r: Range<A>, c: u32)
+    ensures #[trigger] covers(seq![r], c) <==> (r.start <= c <= r.end)
+{
+    let t = seq![r];
+    if covers(t, c) { let i = choose|i: int| 0 <= i < t.len() && (#[trigger] t[i]).start <= c <= t[i].end; assert(t[i] == r); }
+    if r.start <= c <= r.end { assert(t[0] == r); }
+}
+pub broadcast group covers_lemmas { lemma_covers_push, lemma_covers_concat, lemma_covers_one }
+
 impl<A> RangeMap<A> { pub closed spec fn rs(&self) -> Seq<Range<A>> { self.ranges@ } }
 impl<A: Clone> RangeMap<A> {
     pub fn insert<F>(&mut self, mut new_range_start: u32, new_range_end: u32, value: A, merge: F)
@@ -114,25 +125,25 @@ impl<A: Clone> RangeMap<A> {
                 ns0 <= new_range_start <= new_range_end,
                 forall|i: int| 0 <= i < new_ranges@.len() ==> (#[trigger] new_ranges@[i]).end < new_range_start,
                 forall|j: int| 0 <= j < R.len() - range_iter.remaining().len() ==> (#[trigger] R[j]).end < new_range_start,
+                forall|i: int| 0 <= i < new_ranges@.len() && range_iter.remaining().len() > 0 ==> (#[trigger] new_ranges@[i]).end < range_iter.remaining()[0].start,
                 forall|c: u32| covers(new_ranges@, c) <==> (covers(R.take(R.len() - range_iter.remaining().len()), c) || ns0 <= c < new_range_start),
                 forall|a: &mut A, b: A| merge.requires((a, b)),
-            decreases range_iter.decrease(),
+                range_iter.decrease() is Some,
+            decreases range_iter.decrease().unwrap(),
         {
             let ghost k = R.len() - range_iter.remaining().len() - 1;
             let ghost nr0 = new_ranges@;
             proof {
                 broadcast use into_iter_seq_vec;
+                broadcast use covers_lemmas;
                 assert(range == R[k]);
                 assert(R.take(k + 1) =~= R.take(k).push(R[k]));
-                lemma_covers_push(R.take(k), R[k]);
                 lemma_covers_split(R, k + 1);
                 lemma_covers_split(R, k);
                 assert(R.skip(k) =~= seq![R[k]] + R.skip(k + 1));
-                lemma_covers_concat(seq![R[k]], R.skip(k + 1));
                 assert(range_iter.remaining() =~= R.skip(k + 1));
             }
             if range.end < new_range_start {
-                proof { lemma_covers_push(nr0, range); }
                 new_ranges.push(range);
             } else if range.start > new_range_end {
                 new_ranges.push(Range {
